@@ -11,7 +11,7 @@ ENGINE = "gen_concat"
 RULE = ("programs = `const` items invoking str_concat! (over &[&str] and &[char]; inline array, named const, &CONST array, `[piece; COUNT]` with a named count; in a third of the programs the caller's constants carry names that konst's own macro bodies give to their helper items - LEN, STR, CONC, ... harvested from /repo's sources), "
         "str_join! (str and char separators: empty, 1-, 2-, 3-, 4-byte, multi-char; literal or named const), string::from_iter! "
         "(DSL chains yielding &str / &&str / char incl. flat_map, filter, map, rev, char ranges) and slice_concat! (u8, u16, &str, "
-        "char elements, empty inner slices, empty list) with 0..=4 pieces of <= 3 chars over {a,é,漢,😀,NUL} incl. empty pieces; "
+        "char, raw-pointer and raw-pointer-holding struct elements (Copy but not Sync), empty inner slices, empty list) with 0..=4 pieces of <= 3 chars over {a,é,漢,😀,NUL} incl. empty pieces; "
         "plus the CStr constructors / views evaluated in const items on byte strings with and without interior / trailing nul (error paths included); oracle = the std expression on the same constants compared at run time (plus: a program that fails const evaluation "
         "while its std twin compiles is a violation); non-trivial = >= 2 pieces with a multi-byte piece or separator or an empty "
         "piece, counted per distinct program")
@@ -177,19 +177,33 @@ def gen_plain(rng, i):
             oexpr = "(%s as [&str; %d]).iter().enumerate().filter(|(i, _)| *i %% 2 == 0).map(|(_, s)| *s).collect::<String>()" % (arr, n)
         return "", "&str", kexpr, oexpr, nt or v in (1, 4), {"kind": kind, "variant": v, "pieces": pieces}
     # slice_concat
-    ety = rng.choice(["u8", "u16", "&str", "char"])
+    ety = rng.choice(["u8", "u16", "&str", "char", "*const u8", "P"])
     inner = []
     for p in pieces:
         m = rng.randint(0, 3)
         if ety in ("u8", "u16"):
             inner.append([str(rng.randint(0, 255 if ety == "u8" else 65535)) for _ in range(m)])
+        elif ety == "*const u8":
+            # Copy but neither Send nor Sync: the macro documents `T: Copy` and nothing else
+            inner.append([rng.choice(["core::ptr::null::<u8>()", "core::ptr::NonNull::<u8>::dangling().as_ptr() as *const u8"]) for _ in range(m)])
+        elif ety == "P":
+            inner.append(["P(core::ptr::null(), %d)" % rng.randint(0, 9) for _ in range(m)])
         elif ety == "&str":
             inner.append([lit(piece(rng)) for _ in range(m)])
         else:
             inner.append(["'%s'" % esc(rng.choice(CH)) for _ in range(m)])
     arr = "[" + ", ".join("&[" + ", ".join(x) + "]" for x in inner) + "]"
+    if ety == "P":
+        # a Copy struct with a raw-pointer field (an FFI-table entry)
+        pdecl = "#[derive(Copy, Clone, PartialEq, Debug)] struct P(*const u8, u8);"
+        kexpr = "&konst::slice::slice_concat!(P, &%s)" % arr
+        oexpr = "{ let x: Vec<Vec<P>> = vec![%s]; x.concat() }" % ", ".join("vec![%s]" % ", ".join(x) for x in inner)
+        nt = len(inner) >= 2
+        return pdecl, "&[P]", kexpr, oexpr, nt, {"kind": "slice_concat", "elem": ety, "inner": inner}
     kexpr = "&konst::slice::slice_concat!(%s, &%s)" % (ety, arr)
     oexpr = "({ let x: [&[%s]; %d] = %s; x }).concat()" % (ety, len(inner), arr)
+    if ety == "*const u8":
+        oexpr = "{ let x: Vec<Vec<*const u8>> = vec![%s]; x.concat() }" % ", ".join("vec![%s]" % ", ".join(x) for x in inner)
     nt = len(inner) >= 2 and any(len(x) == 0 for x in inner) and any(len(x) > 0 for x in inner)
     return "", "&[%s]" % ety, kexpr, oexpr, nt, {"kind": "slice_concat", "elem": ety, "inner": inner}
 
